@@ -367,7 +367,9 @@ func runLimit(r *harness.Run, version string, path string, fields [4]string, tar
 
 func checkVersion(r *harness.Run, version string) []string {
 	var bad []string
-	fail := func(f string, a ...interface{}) { bad = append(bad, fmt.Sprintf("version %s: ", version)+fmt.Sprintf(f, a...)) }
+	fail := func(f string, a ...interface{}) {
+		bad = append(bad, fmt.Sprintf("version %s: ", version)+fmt.Sprintf(f, a...))
+	}
 	row := refversions.Get(version)
 	v, err := gmsl.GetRoomVersion(gmsl.RoomVersion(version))
 	if err != nil {
